@@ -2,10 +2,11 @@
     This file contains only the property theorems, each closed by [exact], with
     [Print Assumptions] beneath.  Models: Model/Tokenizer.v, Model/Parser.v, Model/Command.v,
     Model/Printer.v; proofs: Proofs/ParserBasics.v, ExprRoundTrip.v, FuelProofs.v,
-    ParserProofs.v, CommandProofs.v. *)
+    ParserProofs.v, CommandProofs.v, TotalityProofs.v, PanicProofs.v, QueryRoundTrip.v. *)
 From Coq Require Import NArith ZArith List Bool.
 From Snel Require Import Base.Bytes Model.Tokenizer Model.Parser Model.Command Model.Printer
-  Proofs.ExprRoundTrip Proofs.FuelProofs Proofs.ParserProofs Proofs.CommandProofs.
+  Proofs.ExprRoundTrip Proofs.FuelProofs Proofs.ParserProofs Proofs.CommandProofs
+  Proofs.TotalityProofs Proofs.PanicProofs Proofs.QueryRoundTrip.
 Import ListNotations.
 Open Scope N_scope.
 
@@ -52,9 +53,18 @@ Theorem C17_keywords_ci : forall fx sp sp' e, speller_ok sp -> speller_ok sp' ->
 Proof. exact keywords_ci. Qed.
 Print Assumptions C17_keywords_ci.
 
-(** The fuel the entry point supplies (three rule levels per input byte) never runs out. *)
-Theorem C17_fuel_enough : forall fx s, parse_expr_at fx s <> OOF.
-Proof. exact parse_expr_at_noof. Qed.
+(** Printing any well-formed Query command (event sequence, FOR, SINCE, USING, USING TIME, WHERE,
+    RETURN, LINKED BY, aggregates, PER, BY, ORDER BY, LIMIT, OFFSET) and parsing the text with
+    the QUERY grammar yields the same command, in both modes and for every keyword casing. *)
+Theorem C17_parse_print_query : forall fx sp, speller_ok sp -> forall q, wf_query q = true ->
+  parse_query fx (print_query sp q) = Ok q.
+Proof. exact parse_print_query. Qed.
+Print Assumptions C17_parse_print_query.
+
+(** The model of parse_command is total for the right reason: the fuel its entry points
+    supply never runs out, on any input, in either mode. *)
+Theorem C17_fuel_enough : forall fx s, parse_command fx s <> POOF.
+Proof. exact parse_command_fuel_enough. Qed.
 Print Assumptions C17_fuel_enough.
 
 (** Totality is false of the grammar as it is: each of the four unchecked conversions panics. *)
@@ -65,6 +75,26 @@ Theorem C17_panic_refuted :
   parse_command false txt_float = PPanic SiteFloat.
 Proof. exact panic_refuted. Qed.
 Print Assumptions C17_panic_refuted.
+
+(** ... and nothing else does: with the four conversions made fallible (fixes/C17-numeric-terminals.diff)
+    the parser never panics, on any input ... *)
+Theorem C17_fixed_never_panics : forall s k, parse_command true s <> PPanic k.
+Proof. exact fixed_never_panics. Qed.
+Print Assumptions C17_fixed_never_panics.
+
+(** ... and returns exactly what the present grammar returns wherever that one does not panic. *)
+Theorem C17_fixed_agrees : forall s, (forall k, parse_command false s <> PPanic k) ->
+  parse_command true s = parse_command false s.
+Proof. exact fixed_agrees. Qed.
+Print Assumptions C17_fixed_agrees.
+
+(** The known classes at the conversions: each one panics exactly on its out-of-range texts. *)
+Theorem C17_panic_classes : forall neg d,
+  (conv_u32 false SiteLimit neg d = Panic SiteLimit <-> LimitOutOfU32 neg d) /\
+  (conv_u32 false SiteOffset neg d = Panic SiteOffset <-> OffsetOutOfU32 neg d) /\
+  (conv_i64 false neg d = Panic SiteInt <-> IntLiteralOutOfI64 neg d).
+Proof. exact (fun neg d => conj (conv_u32_panics_iff SiteLimit neg d) (conj (conv_u32_panics_iff SiteOffset neg d) (conv_i64_panics_iff neg d))). Qed.
+Print Assumptions C17_panic_classes.
 
 (** Dispatch: some variant of Command has no arm (Batch) ... *)
 Theorem C17_dispatch_refuted : exists k, In k all_kinds /\ dispatch_handled k = false.
